@@ -246,7 +246,38 @@ def gen_schema_v(ex=None) -> str:
         A(f"Definition root_{r['name']} : root_desc := Root c{r['name']} [{st}] [{lo}].")
     A("")
     A("Definition roots : list root_desc := [" + "; ".join("root_" + r["name"] for r in ROOTS) + "].")
+    A("")
+    # which adapter serialises an object: the ADAPTERS table in source order (extracted), and the subclass relation of the
+    # eight collection classes (introspected from soundevent.data)
+    order, parents = dispatch_tables(ex)
+    A("Definition adapters_order : list cls := [" + "; ".join("c" + n for n in order) + "].")
+    A("Definition collection_parent (c : cls) : option cls :=")
+    A("  match c with")
+    for n, par in parents.items():
+        if par is not None:
+            A(f"  | {root_cls(n)} => Some c{par}")
+    A("  | _ => None")
+    A("  end.")
     return "\n".join(L) + "\n"
+
+
+def dispatch_tables(ex=None):
+    """(ADAPTERS order as data class names, {class: nearest collection base or None})"""
+    from soundevent import data
+
+    names = [r["name"] for r in ROOTS]
+    parents = {}
+    for n in names:
+        cls = getattr(data, n)
+        par = next((b.__name__ for b in cls.__mro__[1:] if b.__name__ in names), None)
+        parents[n] = par
+    if ex is not None and ex.get("dispatch"):
+        order = [e[1] for e in ex["dispatch"]["order"]]
+    else:
+        from soundevent.io import aoef as _A
+
+        order = [a[1].__name__ for a in _A.ADAPTERS]
+    return order, parents
 
 
 # ------------------------------------------------------------------------------------------------ canonical values
